@@ -171,14 +171,17 @@ def locality(old, new, e):
 def run(ctx):
     rng, cov = ctx.rng, ctx.coverage
     meta13, err13 = vlib.regen_extracted("C13")
+    meta06, err06 = vlib.regen_extracted("C06")     # the Rabin / fixed-size chunker models the edit-locality theorems are instantiated with
+    meta11, err11 = vlib.regen_extracted("C11")     # the parent matcher (unchanged-tree short-cut guard)
     meta, err = vlib.regen_extracted("C07")
     r = vlib.proof_stage(ctx)
-    for e in (err, err13):
+    for e in (err, err13, err06, err11):
         if e:
             r["ok"] = False; r["failures"].append("fact extraction failed: " + e)
     cov["trusted_base"] += ["props/C07/extract.py (shape of the two upload gates in file_archiver.rs / tree_archiver.rs)",
                             "props/C13/extract.py (element type of Indexer.indexed, writer queue length)"]
-    cov["source_facts"] = {"C07": meta, "C13": meta13}
+    cov["trusted_base"] += ["props/C06/extract.py (chunker constants, check_rabin_params)", "props/C11/extract.py (is_parent clauses, short-cut guard of backup_tree)"]
+    cov["source_facts"] = {"C07": meta, "C13": meta13, "C06": meta06, "C11": meta11}
     ctx.assumptions += [
         "ids are abstract: equal id = equal plaintext (SHA-256 collision-free on the values that occur); `tid` (tree serialisation + hash) is an arbitrary function of the node list, universally quantified; the driver checks on the observed ids that it IS a function of (names, metadata digest, content/subtree ids) and injective",
         "the source is the item stream after chunking and hashing; the chunker is abstract in edit_locality: hypotheses chunker_partition (lossless, non-empty chunks) and resync_after_common_cut (cut points depend only on the bytes since the previous cut) are universally quantified and shown satisfiable by a delimiter chunker; that the Rabin chunker meets them is C06's subject and is only OBSERVED here (oracle c)",
@@ -207,6 +210,12 @@ def run(ctx):
         cases.append((gen_case(rng, "collision", ctx.thorough())[0], "collision"))
     for _ in range(ngen):
         cases.append((gen_case(rng, "edits", ctx.thorough())[0], "edits"))
+    # the search for the writer-order obligation (index entry before pack upload): only when the proof
+    # stage is broken or the source fact says so, and once in the thorough tier as a regression
+    wbi = (meta or {}).get("pack_written_before_indexed", "")
+    if (not r["ok"]) or ctx.thorough() or not str(wbi).startswith("process: write_bytes"):
+        for fp in ([5] if r["ok"] else [5, 4, 6]):
+            cases.append(("fault %d %d" % (rng.randrange(1, 2 ** 40), fp), "fault"))
     outs = []
     B = 6
     for i in range(0, len(cases), B):
@@ -234,6 +243,13 @@ def run(ctx):
         if not out.startswith("ok"):
             bad("a backup of the edit script did not complete: " + out[:200], case, -1, out[:400]); continue
         segs = [s.strip() for s in out.split("|")][1:]
+        fault = None
+        if segs and segs[0].startswith("FAULT"):
+            fault = dict(x.split("=") for x in segs[0].split()[1:])
+            segs = segs[1:]
+            hist["fault_scenarios"] = hist.get("fault_scenarios", 0) + 1
+            if fault["failed"] != "1" or fault["snapshots"] != "0":
+                bad("a backup whose pack upload failed reported success or left a snapshot", case, -1, str(fault))
         end = segs[-1]
         bks = [parse_backup(s) for s in segs[:-1]]
         if "clean=1" not in end:
@@ -281,12 +297,14 @@ def run(ctx):
                 bad("a blob that the new snapshot does not reference was uploaded", case, k, str(alien[:10]))
             missing = sorted(x for x in NEW if x not in STORED)
             if missing:
-                bad("a blob of the new state that the index did not have was NOT uploaded", case, k, str(missing[:10]))
+                bad("a blob of the new state that did not exist before (no index entry backed by a pack file) was NOT uploaded", case, k, str(missing[:10]))
             for x, n in STORED.items():
                 if n > 1:
                     hist["in_run_duplicates"] += n - 1
                 if x in occ and n > occ[x]:
                     bad("a blob was stored more often than it occurs in the new data (outside the in-run window)", case, k, "%s stored %d times, occurs %d times" % (x, n, occ[x]))
+            if b.get("dangling", 0) != 0:
+                bad("the index lists blobs of a pack file that is not in the repository (an index entry reached the repository before its pack)", case, k, "%d blobs" % b["dangling"])
             if b["removes"] != 0:
                 bad("a backup removed files from the repository", case, k, str(b["removes"]))
             if (b["index_writes"] == 0) != (len(b["packs"]) == 0):
@@ -365,7 +383,8 @@ def run(ctx):
             for t, _, ids in b["packs"]:
                 if t in (0, 1):
                     ml += [str(t), str(len(ids))] + [str(i) for i in ids]
-            mlines.append(" ".join(ml)); mref.append((case, k, NEW, STORED))
+            if len(ALL) <= 20000:      # the list-based extracted model is quadratic; the fault scenario has 65536 blobs
+                mlines.append(" ".join(ml)); mref.append((case, k, NEW, STORED))
             b["files"] = files
             prev = b
     # ---- correspondence: the observations are runs of the extracted model
